@@ -1713,6 +1713,11 @@ func (t *tScreen) parseRune(buf *bytes.Buffer, evs *[]Event) (bool, bool) {
 		}
 		if nOut != 0 {
 			r, _ := utf8.DecodeRune(utf[:nOut])
+			if r == 0x9b {
+				// an 8-bit CSI: leave it to the mouse parsers,
+				// which accept it as an introducer
+				return false, false
+			}
 			if r != utf8.RuneError {
 				mod := ModNone
 				if t.escaped {
